@@ -115,7 +115,7 @@ MODELS = [
     HTTP_MODEL,
     ("mempool", "Extract.v", ["mmodel"], "main.ml"),
 ]
-HARNESSES = [("mempool", False), ("httpparse", True), ("httpresp", True), ("httpref", True), ("stop", True), ("httpe2e", True), ("gendump", True)]
+HARNESSES = [("httpparse", True), ("httpresp", True), ("httpref", True), ("stop", True), ("httpe2e", True), ("gendump", True)]
 
 CHECKS = {
     "C06": c06,
